@@ -11,8 +11,9 @@ package server
 // final-named directory with a torn or missing flag file.
 
 //@ func (se *SSEnv) createFlagFile [C16]
-//@ modifies fileutil.gFlagDir
-//@ ensures result == nil ==> fileutil.gFlagDir == se.tmpDir
+//@ requires fileutil.gDirtyDir == 0
+//@ modifies fileutil.gFlagDir, fileutil.gDirtyDir, fileutil.gFFIncomplete, fileutil.gFFSynced, fileutil.gFFWrites, fileutil.gFFDir
+//@ ensures result == nil ==> fileutil.gFlagDir == se.tmpDir && fileutil.gDirtyDir == 0
 
 // gFinalDirExists: a directory with the snapshot's final name already exists
 //@ ghost var gFinalDirExists bool
